@@ -31,6 +31,9 @@ CLAIMED = {
  "C13": ("CC", "deterministic simulation of the real Compress middleware and encoding::Decoder over scripted body streams: seeded search over Accept-Encoding lists x body kinds/sizes x chunkings with Pending x content types/statuses x stream faults; reference codecs and an independent RFC 7231 acceptability rule",
         "Seeded exploration: responses produced through App.wrap(Compress) for generated Accept-Encoding header values (q-values, wildcard, identity exclusions, unknown codings, duplicates), bodies None/sized/streamed from 0 B to MBs in chunks with Pending between them, statuses/content types/handler-set Content-Encoding; the chosen coding must be acceptable under an independently written RFC 7231 §5.3.4 rule (or 406), headers must agree with the bytes (Content-Encoding, Vary, no stale Content-Length), and the body decoded by the reference codec must equal what the handler produced; request bodies with Content-Encoding are decoded under chunkings and truncations and must equal the original or fail, never a clean short body. Sampling, not proof.",
         "Bit flips inside br/zstd streams are not judged (the formats carry no checksum by default); only truncation is. Handler-set Content-Length is not judged at middleware level.", "§4 C13"),
+ "C17": ("CL", "deterministic simulation of the real awc client (pool, h1 client codec, payload stream) over simulated sockets handed out by a custom connector: seeded search over response framings x cut/reset offsets x segmentations x request histories with early-dropped bodies x interleavings of concurrent client tasks above the pool limit; scripted peer with an independent response serializer",
+        "Seeded exploration: 1–6 requests (concurrent or chained, GET/HEAD) through one awc::Client with connection limit 1–3 against a scripted HTTP/1 peer: HTTP/1.0 and 1.1, Content-Length / chunked / close-delimited bodies from 0 B to 70 KB, 200/404/204/304, Connection absent/close/keep-alive, the connection ended (FIN or RST) at an arbitrary byte offset of head or body, closed after a complete response, response bytes delivered in simulator-chosen segments down to single bytes with read caps, connects that complete late, clients that drop the response after the head or after n chunks. Every delivered body must be a prefix of the body sent for that very request and a clean end requires the complete framed body; a connection is used again only after a persistent, completely read exchange (judged from the script by an independent RFC 7230 §6.3 rule); open sockets never exceed the limit; a complete response on a fresh connection is not an error; client tasks finish once the peer has nothing more to do (virtual-time budget). Sampling, not proof.",
+        "Single authority (idle pooled connections to other hosts are outside the permit accounting by design); the peer never sends unsolicited bytes; HTTP/2 client connections are not driven.", "§4 C17"),
  "C12": ("EX", "deterministic simulation of the real extractor futures over a scripted payload stream under a wake-driven executor: seeded search over limits x decoded lengths around the limit x chunkings with Pending x content codings x declared lengths x stream faults; every scenario also run under the trivial schedule (metamorphic)",
          "Seeded exploration: Bytes, String, Json, Form and Payload::to_bytes_limited extractors with limits 0…256 KiB, decoded lengths limit-1/limit/limit+1/10x/multi-MB, 1-byte to 100 KB chunks straddling the in-place/spawn_blocking decode thresholds, Pending between chunks, identity/gzip/deflate/br/zstd, absent/honest/lying Content-Length, payload errors and truncated compressed streams. Success implies a value within the limit and equal to what was sent; a decoded body over the limit yields the extractor's overflow error (never success, never a parse error of a prefix); the outcome class is the same under the drawn chunking and as a single chunk; live-heap growth during extraction stays within 2x limit + 2 chunks + a fixed slack even for multi-MB bodies (identity/gzip/deflate). Sampling, not proof.",
          "MultipartForm field limits are not driven here; the heap bound is not checked for brotli/zstd (their contexts are megabytes by themselves).", "§4 C12"),
